@@ -58,8 +58,25 @@ mod imp {
     #[inline]
     pub fn pause() {}
 
+    thread_local! {
+        static SPINS: std::cell::Cell<u64> = const { std::cell::Cell::new(0) };
+    }
+
+    /// Every scenario thread is fresh and does a few dozen operations; if it has yielded this
+    /// often inside spin-waits, what it waits for will never happen (e.g. the peer lost its
+    /// wake-up and is parked for good while this thread polls a flag). Miri only reports a
+    /// deadlock when *all* threads are blocked, so this bound turns the live-lock into a verdict.
+    const SPIN_BOUND: u64 = if cfg!(miri) { 50_000 } else { 50_000_000 };
+
     #[inline]
     pub fn spin() {
+        let n = SPINS.with(|c| {
+            c.set(c.get() + 1);
+            c.get()
+        });
+        if n > SPIN_BOUND {
+            panic!("ORACLE|c17.no_progress|?|a thread spun {n} times waiting for its peer: the peer never got there (parked for good?)");
+        }
         std::hint::spin_loop();
         std::thread::yield_now();
     }
